@@ -284,6 +284,7 @@ class HTTPApiDecoder:
     type_constructables_map = {
         model.AssetAdministrationShell: XMLConstructables.ASSET_ADMINISTRATION_SHELL,
         model.AssetInformation: XMLConstructables.ASSET_INFORMATION,
+        model.ConceptDescription: XMLConstructables.CONCEPT_DESCRIPTION,
         model.ModelReference: XMLConstructables.MODEL_REFERENCE,
         model.SpecificAssetId: XMLConstructables.SPECIFIC_ASSET_ID,
         model.Qualifier: XMLConstructables.QUALIFIER,
